@@ -371,3 +371,119 @@ def check_fee_deduction_all_kinds(ctx, model, crate, rule):
         ctx.ob(rule, "%s|fee-deducted-for-every-asset-kind" % p, not bad,
                "pending-fee subtraction unreachable when the pool asset is a %s" % bad if bad else "pending-fee subtraction reachable for cw20 and native pool assets alike", v.where(subs[0]))
     ctx.floor(rule, "%s functions deducting pending fees" % crate, n, 5)
+
+
+def check_cp_share_formula(ctx, model, rule):
+    """Constant-product deposit into a non-empty pair: the LP share is min_i(deposit_i.multiply_ratio(total_share, pool_i))
+    -- one exact floor per side, deposit_i and pool_i of the SAME pool position, pool_i net of deposit and pending fees.
+    Going through a truncated 18-decimal price (deposit / (pool/total_share)) rounds the share UP for large amounts."""
+    from .stablemath import deposit_pool_index
+    p = "terraswap_pair::commands::provide_liquidity"
+    v = ctx.view(p, rule)
+    if v is None:
+        return
+    mins = v.calls_to(r"^std::cmp::min$")
+    cands = []
+    for b, t in mins:
+        sides = []
+        for a in t["args"]:
+            for o in v.origins_of_operand(a, at=v.at_term(b)):
+                c = call_of(v, o)
+                if c and mname(c[1]).endswith("Uint128::multiply_ratio"):
+                    cb, ct = c
+                    dep = deposit_pool_index(v, model, ct["args"][0], v.at_term(cb))
+                    sup = v.origins_of_operand(ct["args"][1], at=v.at_term(cb))
+                    den = v.origins_of_operand(ct["args"][2], at=v.at_term(cb), taint=True)
+                    pidx = sorted({o2.proj[0] for o2 in den if o2.kind == "call" and o2.a.endswith("query_pools") and len(o2.proj) == 2 and o2.proj[1] == "amount" and o2.proj[0].startswith("[")})
+                    sides.append((dep, pidx, bool(sup) and all(o2.kind == "call" and o2.a.endswith("get_total_share") for o2 in sup)))
+                else:
+                    sides.append(("?", "?", False))
+        cands.append((b, sides))
+    good = [c for c in cands if len(c[1]) == 2 and sorted(s[0] for s in c[1]) == [["[0]"], ["[1]"]] and all(s[0] == s[1] and s[2] for s in c[1])]
+    ctx.ob(rule, "%s|share=min(deposit_i*supply/pool_i)" % p, len(good) == 1,
+           "min(..) of per-side multiply_ratio: %s (each side: deposit index, pool index, scaled by total_share)" % [c[1] for c in cands], v.where(good[0][0]) if good else v.where())
+    # and that value is what is minted to the depositor on this path
+    if good:
+        gb = good[0][0]
+        mints = []
+        for b, t in v.calls_to(r"mint_lp_token_msg$"):
+            os_ = v.origins_of_operand(t["args"][-1], at=v.at_term(b))
+            if any(o.kind == "call" and o.b == "%s:bb%d" % (v.path, gb) for o in os_):
+                mints.append(b)
+        ctx.ob(rule, "%s|that-share-is-minted" % p, bool(mints), "mint of the min(..) share found: %s" % bool(mints), v.where(gb))
+
+
+def _closure_deducts_fee(model, cpath):
+    """Closure body subtracts a looked-up pending fee on every path to its successful return."""
+    if cpath not in model.fnsrc:
+        return False
+    cv = model.view(cpath)
+    subs = []
+    for b, t in cv.calls_to(r"helpers::get_protocol_fee_for_asset$"):
+        for xb, xt in cv.calls_to(r"Uint128::checked_sub$|<cosmwasm_std::Uint128 as std::ops::Sub>::sub$"):
+            a1 = cv.origins_of_operand(xt["args"][1], at=cv.at_term(xb))
+            if any(o.kind == "call" and o.b == "%s:bb%d" % (cv.path, b) for o in a1):
+                subs.append(xb)
+    oks = ok_value_blocks(cv) or list(cv.return_blocks())
+    return bool(subs) and any(must_pass_through(cv, xb, oks) for xb in subs)
+
+
+def _fee_reduced(v, model, origins, depth=0):
+    """Every reaching definition of a reserve is net of the pending protocol fee. Returns (ok, why)."""
+    if not origins:
+        return False, "no provenance"
+    for o in origins:
+        if o.kind != "call":
+            return False, "%r is not derived from a fee subtraction" % (o,)
+        c = call_of(v, o)
+        if c is None:
+            return False, "%r" % (o,)
+        cb, ct = c
+        name = mname(ct)
+        if re.search(r"Uint128::(checked_sub|saturating_sub)$|<cosmwasm_std::Uint128 as std::ops::Sub>::sub$", name):
+            a1 = v.origins_of_operand(ct["args"][1], at=v.at_term(cb))
+            if any(x.kind == "call" and x.a.endswith("get_protocol_fee_for_asset") for x in a1):
+                continue
+            if depth < 4:
+                ok, why = _fee_reduced(v, model, v.origins_of_operand(ct["args"][0], at=v.at_term(cb)), depth + 1)
+                if ok:
+                    continue
+                return False, why
+            return False, "subtraction chain too deep"
+        if name.endswith("query_pools"):
+            return False, "raw query_pools balance (line %s)" % ct.get("ln")
+        # iterator pipeline / local closure call: some closure on the way must deduct the fee unconditionally
+        closures = set()
+        for a in ct["args"]:
+            closures |= {x.a for x in v.origins_of_operand(a, at=v.at_term(cb), taint=True) if x.kind == "closure"}
+        m = re.search(r"(\\S+::\\{closure#\\d+\\})", name)
+        if m:
+            closures.add(m.group(1))
+        if any(_closure_deducts_fee(model, k) for k in closures):
+            continue
+        return False, "%s at line %s carries no pending-fee deduction" % (name.split("::")[-1], ct.get("ln"))
+    return True, ""
+
+
+def check_reserves_net_of_fees(ctx, model, crate, rule):
+    """Every reserve handed to the pricing routine (compute_swap / compute_offer_amount) is, on every reaching definition,
+    net of the pending protocol fee of its asset -- in the executed swap and in both simulations."""
+    n = 0
+    for p in ("%s::commands::swap" % crate, "%s::queries::query_simulation" % crate, "%s::queries::query_reverse_simulation" % crate):
+        v = ctx.view(p, rule)
+        if v is None:
+            continue
+        calls = v.calls_to(r"helpers::compute_swap$|helpers::compute_offer_amount$")
+        if not calls:
+            ctx.missing(rule, "pricing call in %s" % p)
+            continue
+        nres = 2 if crate == "terraswap_pair" else 3
+        for b, t in calls:
+            bad = []
+            for ai in range(nres):
+                ok, why = _fee_reduced(v, model, v.origins_of_operand(t["args"][ai], at=v.at_term(b)))
+                if not ok:
+                    bad.append("reserve argument %d: %s" % (ai, why))
+            n += 1
+            ctx.ob(rule, "%s|reserves-net-of-pending-fees" % p, not bad, "; ".join(bad) if bad else "all %d reserves net of pending fees on every reaching definition" % nres, v.where(b))
+    ctx.floor(rule, "%s pricing calls" % crate, n, 3)
